@@ -24,6 +24,7 @@ func runC11(x *mc.X) {
 	delay := mc.Pick(x, "origin.delay", []int64{0, 3})
 	poison := x.Choose("origin.sends-cache-fields", 2) == 1
 	eIdx := x.Choose("elapsed", 3)
+	proto := mc.Pick(x, "origin.protocol", []string{"", "HTTP/2.0", "HTTP/1.0"})
 
 	w := world.New(world.Opt{})
 	defer w.Close()
@@ -88,7 +89,7 @@ func runC11(x *mc.X) {
 			h = append(h, [2]string{"Last-Modified", httpDate(w.Epoch.Add(-secs(100000)))})
 		}
 		h = hdrIf(h, "Age", originAge)
-		answer(w, RS{Status: 200, H: poisonH(h), Delay: secs(delay), DateOff: secs(skew)})
+		answer(w, RS{Status: 200, H: poisonH(h), Delay: secs(delay), DateOff: secs(skew), Proto: proto})
 		o1 = get(w, U)
 		logObs(x, fmt.Sprintf("GET (origin: 200 %v delay=%ds date-skew=%ds)", h, delay, skew), o1)
 		checkC11Fields(x, path+"/store", o1, nil, nil, time.Now())
